@@ -4,6 +4,7 @@ import (
 	"fmt"
 	"go/types"
 	"sort"
+	"strings"
 
 	"golang.org/x/tools/go/ssa"
 
@@ -182,21 +183,28 @@ func (it *interp) reduce(s *state) *state {
 	ds := append([]*disjunct(nil), s.ds...)
 	for len(ds) > it.K {
 		// merge the two disjuncts with the most similar fact sets (cheap heuristic: last two)
-		bi, bj, best := 0, 1, -1
+		bi, bj, best := 0, 1, -1<<30
 		lim := len(ds)
-		if lim > 24 {
-			lim = 24
+		if lim > 40 {
+			lim = 40
+		}
+		sigs := make([]string, lim)
+		for i := 0; i < lim; i++ {
+			sigs[i] = nilSig(ds[i])
 		}
 		for i := 0; i < lim; i++ {
 			for j := i + 1; j < lim; j++ {
 				common := 0
+				if sigs[i] != sigs[j] {
+					common = -1000 // never merge an error path with a success path if avoidable
+				}
 				for k := range ds[i].fkeys {
 					if ds[j].fkeys[k] {
 						common++
 					}
 				}
 				score := common*2 - len(ds[i].fkeys) - len(ds[j].fkeys)
-				if best == -1 || score > best {
+				if score > best {
 					best, bi, bj = score, i, j
 				}
 			}
@@ -251,9 +259,15 @@ func repEqual(a, b rep) bool {
 
 func (it *interp) merge(a, b *disjunct) *disjunct {
 	m := newDisjunct()
-	m.tag = a.tag
-	if a.tag != b.tag {
-		m.tag = ""
+	for k, ta := range a.tags {
+		if tb, ok := b.tags[k]; ok {
+			if t := mergeTags(ta, tb); t != "" {
+				if m.tags == nil {
+					m.tags = map[string]string{}
+				}
+				m.tags[k] = t
+			}
+		}
 	}
 	// values: equal reps are kept; differing integer reps become a fresh atom constrained by
 	// what both sides entail about them
@@ -502,4 +516,54 @@ func tupleElemType(v ssa.Value, i int) types.Type {
 		return t.At(i).Type()
 	}
 	return types.Typ[types.Int]
+}
+
+// nilSig summarises the constant nil-ness of call results (error / pointer returns) in d.
+func nilSig(d *disjunct) string {
+	var parts []string
+	add := func(k valKey, name string, r rep) {
+		if r.isnil == nil {
+			return
+		}
+		if c, ok := r.isnil.ConstVal(); ok {
+			parts = append(parts, fmt.Sprintf("%d:%s=%d", k.f, name, c))
+		}
+	}
+	for k, r := range d.vals {
+		switch k.v.(type) {
+		case *ssa.Call:
+			if r.kind == kTuple {
+				for i, e := range r.tuple {
+					add(k, fmt.Sprintf("%s.%d", k.v.Name(), i), e)
+				}
+			} else {
+				add(k, k.v.Name(), r)
+			}
+		}
+	}
+	sort.Strings(parts)
+	return strings.Join(parts, ",")
+}
+
+// mergeTags unions two "+"-separated sets of loop-head disjunct tags.
+func mergeTags(a, b string) string {
+	if a == b {
+		return a
+	}
+	if a == "" || b == "" {
+		return ""
+	}
+	set := map[string]bool{}
+	for _, t := range strings.Split(a, "+") {
+		set[t] = true
+	}
+	for _, t := range strings.Split(b, "+") {
+		set[t] = true
+	}
+	var ts []string
+	for t := range set {
+		ts = append(ts, t)
+	}
+	sort.Strings(ts)
+	return strings.Join(ts, "+")
 }
